@@ -169,6 +169,8 @@ type PathQuery struct {
 	AtBlock func(b *ssa.BasicBlock, st uint64, c *PathCtx) uint64
 	// AtPanic is called when a path reaches an explicit panic (optional).
 	AtPanic func(pn *ssa.Panic, st uint64, c *PathCtx)
+	// Fold lets the client decide a branch condition (constant folding under a hypothesis).
+	Fold func(cond ssa.Value, c *PathCtx) (val bool, ok bool)
 	// InitAssign seeds known conditions.
 	InitAssign map[string]bool
 	MaxStates  int
@@ -345,6 +347,27 @@ func (q *PathQuery) Run() {
 		}
 		switch t := term.(type) {
 		case *ssa.If:
+			if rv := ctx.Resolve(t.Cond); rv != t.Cond && q.Fold != nil {
+				// a case expression merged through a phi (a && b in a tagless switch): decide the selected operand
+				if v, ok := q.Fold(rv, ctx); ok {
+					if v {
+						push(s.b.Succs[0], s.assign)
+					} else {
+						push(s.b.Succs[1], s.assign)
+					}
+					break
+				}
+			}
+			if q.Fold != nil {
+				if v, ok := q.Fold(t.Cond, ctx); ok {
+					if v {
+						push(s.b.Succs[0], s.assign)
+					} else {
+						push(s.b.Succs[1], s.assign)
+					}
+					break
+				}
+			}
 			key, pol := q.K.condKey(t.Cond)
 			// constant condition
 			if c, ok := t.Cond.(*ssa.Const); ok && c.Value != nil {
